@@ -110,6 +110,9 @@ extern "C" void harness_run()
     if (w.scenario == 2) { plan[t].push_back({sim::draw(2) ? RECVSYNC : CONNECTSYNC, sim::draw(1u << 20), 4000, 0}); }
   }
   uint64_t termDelay = sim::draw(400000) * 1000ull;
+  std::vector<uint32_t> udpGapsUs(w.udp ? 3 + sim::draw(8) : 0);
+  std::vector<char> udpFresh(udpGapsUs.size());
+  for (size_t i = 0; i < udpGapsUs.size(); i++) { udpGapsUs[i] = 1000 + (uint32_t)sim::draw(60000); udpFresh[i] = sim::draw(4) == 3; }
   int cycles = w.scenario == 4 ? 2 + (int)sim::draw(2) : 1;
   sim::notef("%s scenario=%d threads=%d ET=%d batch=%d termDelay=%llums cycles=%d", w.udp ? "UDP" : "TCP", w.scenario, nthr, tc.useEdgeTriggered, tc.batching.enabled,
              (unsigned long long)termDelay / 1000000, cycles);
@@ -163,17 +166,30 @@ extern "C" void harness_run()
   std::thread inbound([&]
   {
     sim::name_thread("inbound");
+    if (w.udp)
+    {
+      // one long-lived peer address (its datagrams keep arriving across stop/start cycles) and some one-shot ones
+      int pfd = ::socket(AF_INET, SOCK_DGRAM, 0);
+      sockaddr_in me = peer::addr("10.0.1.1", 7000);
+      ::bind(pfd, (sockaddr*)&me, sizeof me);
+      sockaddr_in to = peer::addr("127.0.0.1", 5000);
+      for (size_t i = 0; i < udpGapsUs.size() && !w.peersStop.load(); i++)
+      {
+        sim::sleep_ns((uint64_t)udpGapsUs[i] * 1000ull);
+        if (udpFresh[i])
+        {
+          int fd = ::socket(AF_INET, SOCK_DGRAM, 0);
+          ::sendto(fd, "hello", 5, 0, (sockaddr*)&to, sizeof to);
+          ::close(fd);
+        }
+        else ::sendto(pfd, "hello", 5, 0, (sockaddr*)&to, sizeof to);
+      }
+      ::close(pfd);
+      return;
+    }
     for (int i = 0; i < 3 && !w.peersStop.load(); i++)
     {
       sim::sleep_ns(20000000 + 30000000ull * i);
-      if (w.udp)
-      {
-        int fd = ::socket(AF_INET, SOCK_DGRAM, 0);
-        sockaddr_in to = peer::addr("127.0.0.1", 5000);
-        ::sendto(fd, "hello", 5, 0, (sockaddr*)&to, sizeof to);
-        ::close(fd);
-        continue;
-      }
       int fd = peer::connect_to("127.0.0.1", 5000, 200000000ull);
       if (fd < 0) continue;
       peer::write_all(fd, hx::keyed_bytes(9, 400));
